@@ -94,7 +94,8 @@ TrigFailed(e) ==
         IN CASE e.fn = "sin" -> FClose(FFromRat(x.re), cs.s, tol) /\ RSign(x.imv) = 0
              [] e.fn = "cos" -> FClose(FFromRat(x.re), cs.c, tol) /\ RSign(x.imv) = 0
              [] e.fn = "exp" -> FClose(FFromRat(x.re), cs.c, tol) /\ FClose(FFromRat(x.imv), cs.s, tol)
-  IN (IF \A k \in 1..n : ValueOK(it[k]) THEN {} ELSE {"value"})
+  IN IF Has(e, "exc") THEN {"raises"} ELSE
+     (IF \A k \in 1..n : ValueOK(it[k]) THEN {} ELSE {"value"})
      \cup (IF \A j \in 1..n, k \in 1..n :
                  (j < k /\ REq(it[j].f, it[k].f)) => (REq(it[j].re, it[k].re) /\ REq(it[j].imv, it[k].imv))
            THEN {} ELSE {"depends-on-count"})
@@ -196,6 +197,9 @@ Failed(e) ==
     [] e.ev = "from_string" -> FromStringFailed(e)
     [] e.ev = "to_string" -> ToStringFailed(e)
     [] e.ev = "roundtrip" -> RoundTripFailed(e)
+    \* the real code raised while the harness prepared valid operands by public calls
+    \* that are not themselves one of the judged operations (e.g. 1j * phase before exp)
+    [] e.ev = "construct" -> {"raises"}
     [] OTHER -> {"unknown-event"}
 
 TraceInit == pos = 1 /\ nbad = 0
